@@ -196,3 +196,12 @@ def describe(tier):
         assumptions=["termination is measured in line events of the cdd package (deterministic); loops inside C code (re, str methods) are not counted",
                      "'proportional' is decided against the fixed envelope C0 + C1*n; measured maxima are reported as max_steps / max_steps_per_char_x100"],
     )
+
+
+def standalone(case):
+    if case.get("kind") != "doc_string":
+        return None
+    return ("import cdd.shared.docstring_parsers as P, cdd.shared.docstring_utils as U\ns = {s!r}\n"
+            "# must return or raise promptly (the check counts line events; run this under `timeout 10`)\n"
+            "for f, a in ((P.parse_docstring, (s,)), (U.parse_docstring_into_header_args_footer, (s, s))):\n"
+            "    try:\n        print(f.__name__, f(*a))\n    except Exception as e:\n        print(f.__name__, 'raises', repr(e))\n").format(s=case["string"])
